@@ -6,6 +6,9 @@ from dvc import cfront, cext, harness
 from contracts import c_step, c_fs, c_obj, c_blocks
 
 OWN = {
+    "rd.": ("C02", "C09"),
+    "match.": ("C02", "C09"),
+    "ilsdrf.": ("C02", "C09"),
     "fs.": ("C02", "C09"),
     "fs.props_staged": ("C02", "C09"),
     "io.": ("C10",),
@@ -92,6 +95,8 @@ def add_fs_obligations(ck, tu, X, pid):
             struct("io.refuse_after_failure.write_blocks", ok, "digital_rf_write_blocks_hdf5 must return non-zero at once when has_failure is set", {})
         ck.add_function(tu.func_info(c_blocks.BLOCKS_FN))
         write_hdf5_unit(ck, tu, X, struct)
+    if pid in ("C02", "C09"):
+        reader_side(ck, pid)
     ck.trust({k: v for k, v in cext.TRUSTED.items()})
     ck.assumptions += [
         "rename, mkdir and unlink are atomic; a file that was closed successfully before the process died keeps its bytes (crash = process death)",
@@ -205,3 +210,51 @@ def write_hdf5_unit(ck, tu, X, struct):
         ok = not c_fs.may(s.pc, wf["has_failure"] != 0) or (not called and is_conc(rv) and rv != 0)
         struct("io.refuse_after_failure.write_hdf5", ok, "digital_rf_write_hdf5 must return non-zero at once when has_failure is set", {})
     ck.add_function(tu.func_info(name))
+
+
+def reader_side(ck, pid):
+    """C02/C09 reader half: readers and listings only ever open final names, read-only, and tolerate vanished candidates"""
+    import ast, types
+    from checks import pyload, C14, C20
+    from dvc import pysym
+    ld = pyload.module("list_drf")
+    # 1. listing grammar never matches a tmp. name (exhaustive over the bounded name grammar of C14)
+    C14.grammar(ck, ld)
+    mod = pyload.module("digital_rf_hdf5")
+    src = open(mod.__file__).read()
+    tree = ast.parse(src)
+    # 2. every h5py.File opened by reader-side classes is opened read-only; candidate names are built from final-name formats
+    modes = []
+    fmts = []
+    for cls in [n for n in tree.body if isinstance(n, ast.ClassDef) and n.name in ("DigitalRFReader", "_top_level_dir_properties", "_channel_properties")]:
+        for c in ast.walk(cls):
+            if isinstance(c, ast.Call) and ast.unparse(c.func).endswith("h5py.File"):
+                mode = c.args[1].value if len(c.args) >= 2 and isinstance(c.args[1], ast.Constant) else None
+                modes.append((cls.name, mode, c.lineno))
+            if isinstance(c, ast.Constant) and isinstance(c.value, str) and "@%" in c.value:
+                fmts.append(c.value)
+    ck.struct("rd.opens_readonly", bool(modes) and all(m == "r" for _, m, _ in modes), "h5py.File modes used by the RF reader: %s" % modes, {})
+    ck.struct("rd.opens_final_names", bool(fmts) and all(f.startswith("rf@") for f in fmts), "file-name formats used by the RF reader: %s" % fmts, {})
+    # 3. a candidate that does not exist is skipped without opening anything (real _read, os.access -> False)
+    opened = []
+    real_os, real_h5 = mod.os, mod.h5py
+    try:
+        def mk():
+            del opened[:]
+            mod.os = types.SimpleNamespace(path=real_os.path, access=lambda *a: False, R_OK=real_os.R_OK)
+            mod.h5py = types.SimpleNamespace(File=lambda *a, **k: opened.append(a))
+            self_ = types.SimpleNamespace(access_mode="local", top_level_dir="/top", channel_name="ch", _cachedFilename=None, _cachedFile=None, rdcc_nbytes=1)
+            d = {}
+            return (self_, pysym.sym_int("s"), pysym.sym_int("e"), ["a/rf@1.000.h5", "a/rf@2.000.h5"], d), {}, d
+        outs = pysym.explore(mod._top_level_dir_properties._read, mk, [], max_paths=50)
+    finally:
+        mod.os, mod.h5py = real_os, real_h5
+    ck.struct("rd.tolerates_absent", all(oc.kind == "return" and not oc.extra for oc in outs) and not opened,
+              "a vanished candidate file must be skipped (no open, no entry, no exception): %s" % [(o.kind, o.value) for o in outs], {})
+    # 4. bounds tolerate files that vanish between listing and opening
+    gb = [n for n in ast.walk(tree) if isinstance(n, ast.FunctionDef) and n.name in ("_get_first_sample", "_get_last_sample", "_get_bounds")]
+    txt = "\\n".join(ast.unparse(n) for n in gb)
+    ck.struct("rd.bounds_tolerate_vanished", "except (IOError" in txt or "except IOError" in txt or "except OSError" in txt,
+              "_get_bounds must skip listed files that cannot be opened", {})
+    for nm in ("_top_level_dir_properties._read", "_top_level_dir_properties._get_bounds"):
+        ck.add_function(pyload.source_info(mod, nm))
